@@ -139,8 +139,11 @@ def run_impl(p):
                 d[...] = d[::-1].copy()
                 d[0] = d[-1]
         k = ix["kind"]
+        # the same index spelled as a 1-tuple or next to an Ellipsis (a deterministic third of the integer / slice cases)
+        sp = (h + len(str(ix))) % 9
+        wrap = (lambda i: (i,)) if sp == 0 else (lambda i: (Ellipsis, i)) if sp == 1 else (lambda i: (i, Ellipsis)) if sp == 2 else (lambda i: i)
         if k == "int":
-            return r[ix["i"]]
+            return r[wrap(ix["i"])]
         if k == "list":
             if len(ix["is"]) % 2 == 0:
                 return r[list(ix["is"])]
@@ -153,7 +156,9 @@ def run_impl(p):
                 raise AssertionError("indexing modified the caller's index array")
             return res
         if k == "slice":
-            res = r[slice(ix["a0"], ix["b0"], ix["k"])]
+            res = r[wrap(slice(ix["a0"], ix["b0"], ix["k"]))]
+            if sp == 3 and not isinstance(r[...], type(r)):
+                raise AssertionError("rla[...] is not the array")
             return _rl_result(res, joined=ix["k"] not in (None, 1))
         if k == "mask":
             if ix["rl"]:
